@@ -23,6 +23,7 @@ var (
 	ErrOfRegisterPort            = errors.New("can't get port of RegisterInfo")
 	ErrRegisterAgain             = errors.New("cannot register again after unregistering")
 	ErrIsCandidate               = errors.New("get an unexpected character")
+	ErrUnregisterNonCandidate    = errors.New("only a candidate node can be unregistered")
 	ErrInsufficientBalance       = errors.New("the balance is insufficient to deduct the deposit for candidate register")
 	ErrMarshalProfileLength      = errors.New("the data of candidate profile exceed the length limit 1200 Bytes")
 	ErrInsufficientDepositAmount = errors.New("the deposit amount is not enough for candidate register")
@@ -75,6 +76,16 @@ func CheckRegisterTxProfile(profile types.Profile) error {
 			}
 		}
 	}
+	// check isCandidate: only "true" and "false" have a meaning. Any other value would be stored and leave
+	// the account neither registered nor unregistered: it keeps its votes, can be voted for, but can
+	// never be changed, unregistered or refunded again
+	if isCandidate, ok := profile[types.CandidateKeyIsCandidate]; ok {
+		if isCandidate != types.IsCandidateNode && isCandidate != types.NotCandidateNode {
+			log.Errorf("The isCandidate field must be %s or %s. isCandidate = %s", types.IsCandidateNode, types.NotCandidateNode, isCandidate)
+			return ErrIsCandidate
+		}
+	}
+
 	// check income address
 	if strIncomeAddress, ok := profile[types.CandidateKeyIncomeAddress]; ok {
 		if !common.CheckLemoAddress(strIncomeAddress) {
@@ -326,6 +337,11 @@ func (c *CandidateVoteEnv) RegisterOrUpdateToCandidate(tx *types.Transaction) er
 	candidateState, ok := candidateProfile[types.CandidateKeyIsCandidate]
 
 	if !ok || candidateState == "" { // 表示第一次注册候选节点，等于""为如果一个账户第一次注册候选交易失败之后，回滚会让map中的值回滚为零值，string类型的0值为"".箱子交易中容易出现此情况。
+		// An account which is not a candidate has nothing to unregister. Registering it would take the
+		// deposit and give it the votes of the deposit although it is not a candidate
+		if txBuildProfile[types.CandidateKeyIsCandidate] != types.IsCandidateNode {
+			return ErrUnregisterNonCandidate
+		}
 		if err := c.registerCandidate(tx.Amount(), senderAddr, txBuildProfile); err != nil {
 			return err
 		}
